@@ -199,20 +199,28 @@ fn ladder(ctx: &Ctx, rep: &mut Report) {
         }
     }
     // bystanders holding large pictures alive while a victim decodes
-    let big_cfg = crate::mon::ladder::cfg_for(&mut rng, Flavour::Sor(1), 4096, 2048, 0);
-    let big = crate::mon::ladder::large_intra(&mut rng, &big_cfg).encode();
+    // "fill to the brim": bystanders of decreasing picture size are added until one is refused (a
+    // process-wide budget would refuse at some point) or a cap is reached (a correct decoder never refuses)
     let mut bystanders: Vec<Dec> = vec![];
-    for _ in 0..8 {
-        let mut b = Dec::new(true, false);
-        b.decode(&big);
-        bystanders.push(b);
+    for (w, h, cap) in [(4096usize, 2048usize, 12usize), (1024, 1024, 48), (256, 256, 128), (64, 64, 512), (16, 16, 4096)] {
+        let cfg = crate::mon::ladder::cfg_for(&mut rng, Flavour::Sor(1), w, h, 0);
+        let pic = crate::mon::ladder::large_intra(&mut rng, &cfg).encode();
+        for _ in 0..cap {
+            let mut b = Dec::new(true, false);
+            if b.decode(&pic) != Outcome::Ok {
+                rep.count("ladder_bystander_refused");
+                break;
+            }
+            bystanders.push(b);
+        }
     }
+    rep.add("ladder_bystanders_alive", bystanders.len() as u64);
     let mut v = Dec::new(true, false);
     let mut ok = true;
     for (i, c) in victim.iter().enumerate() {
         let out = v.decode(c);
         if digest_call(&v, &out) != solo[i] {
-            rep.violation("ladder/bystanders-holding-large-pictures", format!("victim history call {} gives {} while 8 other instances hold 4096x2048 pictures, and something else when alone", i, out.short()), J::obj().set("property", "C17").set("seed", ctx.seed).set("kind", "ladder"));
+            rep.violation("ladder/bystanders-holding-large-pictures", format!("victim history call {} gives {} while {} other instances hold decoded pictures (largest 4096x2048), and something else when alone", i, out.short(), bystanders.len()), J::obj().set("property", "C17").set("seed", ctx.seed).set("kind", "ladder"));
             ok = false;
             break;
         }
